@@ -100,6 +100,7 @@ func init() {
 
 		// 5. decode failure => no effect
 		checkDecodeGates(c)
+		checkNilFuncFields(c, "C13")
 	})
 }
 
@@ -453,4 +454,104 @@ func checkDecodeGates(c *Ctx) {
 	}
 	c.Floor("post-decode effects", n, 15)
 	_ = token.NoPos
+}
+
+// checkNilFuncFields: a callback stored in a struct field that some
+// constructor leaves nil (the relay's ack record has no nack callback) is
+// called only where the path established that it is not nil. Calling it
+// otherwise is a nil-function panic on the packet listener, reachable with one
+// forged packet that names a pending sequence number.
+func checkNilFuncFields(c *Ctx, prop string) {
+	p := c.P
+	rule := "a callback field that some constructor leaves nil is called only behind a not-nil test of that field"
+	c.Rule(rule)
+	// func-typed fields some composite literal sets to nil explicitly
+	nilable := map[*types.Var]bool{}
+	for _, fn := range p.SortedFuncs() {
+		ast.Inspect(fn.Decl.Body, func(n ast.Node) bool {
+			cl, ok := n.(*ast.CompositeLit)
+			if !ok {
+				return true
+			}
+			t := p.TypeOf(cl)
+			if t == nil {
+				return true
+			}
+			st, ok := t.Underlying().(*types.Struct)
+			if !ok {
+				return true
+			}
+			if nt, isNamed := t.(*types.Named); !isNamed || nt.Obj().Pkg() != p.Types {
+				return true
+			}
+			set := map[*types.Var]ast.Expr{}
+			for i, el := range cl.Elts {
+				if kv, isKV := el.(*ast.KeyValueExpr); isKV {
+					if id, isId := kv.Key.(*ast.Ident); isId {
+						if f, isF := p.Info.Uses[id].(*types.Var); isF {
+							set[f] = kv.Value
+						}
+					}
+				} else if i < st.NumFields() {
+					set[st.Field(i)] = el
+				}
+			}
+			for i := 0; i < st.NumFields(); i++ {
+				f := st.Field(i)
+				if _, isFn := f.Type().Underlying().(*types.Signature); !isFn {
+					continue
+				}
+				v, has := set[f]
+				if !has {
+					continue // left out of a keyed literal: usually assigned right after; only an explicit nil counts
+				}
+				if id, isId := ast.Unparen(v).(*ast.Ident); isId && id.Name == "nil" {
+					nilable[f] = true
+				}
+			}
+			return true
+		})
+	}
+	n := 0
+	for _, fn := range p.SortedFuncs() {
+		if !pinnedFuncs[fn.Name] {
+			continue
+		}
+		var calls []*ast.CallExpr
+		inspectFn(fn, func(nd ast.Node) bool {
+			if call, ok := nd.(*ast.CallExpr); ok {
+				if f := p.SelField(call.Fun); f != nil && nilable[f] {
+					calls = append(calls, call)
+				}
+			}
+			return true
+		})
+		if len(calls) == 0 {
+			continue
+		}
+		x := c.flow(fn, map[string]string{})
+		for _, call := range calls {
+			f := p.SelField(call.Fun)
+			seen := 0
+			for _, e := range x.Effects {
+				if e.Class != "CALLVALUE" || e.Pos != call.Pos() {
+					continue
+				}
+				seen++
+				guarded := false
+				for k, v := range e.Cube {
+					if u := untok(k); strings.HasSuffix(u, "."+f.Name()+"==nil") && v == "F" {
+						guarded = true
+					}
+				}
+				n++
+				c.Check(prop+"/nil-callback/"+fn.Name+"/"+f.Name(), rule, call.Pos(), guarded, "the callback field "+f.Name()+" is nil for records built without it, and is called here without a not-nil test {"+untok(gea.CubeString(e.Cube))+"}")
+			}
+			if seen == 0 {
+				n++
+				c.Check(prop+"/nil-callback/"+fn.Name+"/"+f.Name(), rule, call.Pos(), false, "call of the possibly-nil callback field "+f.Name()+" not found in the exploration of "+fn.Name)
+			}
+		}
+	}
+	c.Floor("calls of callback fields that may be nil", n, 1)
 }
